@@ -358,6 +358,8 @@ func propC01(c *Ctx) {
 	}
 	rccf := c.Rule("const-cache-float", "a Float constant reaches the value-keyed constant cache only after the sign of a zero has been examined (0.0 and -0.0 are one map key; the optimizer folds -0.0 into a literal, the plain compiler negates at run time)", 1)
 	ruleConstCacheFloat(c, rccf)
+	rdk := c.Rule("decl-kind-agree", "the optimizer's scope tracking handles every declaration kind (param, global, var, const) the compiler declares names for: every kind compared with GenDecl.Tok in the compiler is compared in the optimizer", 1)
+	ruleDeclKindAgree(c, rdk)
 	rla := c.Rule("assign-lhs-all", "the optimizer registers every target of an assignment / definition as shadowing: the registering loop is bounded by the length of the left-hand side", 1)
 	ruleAssignLHSAll(c, rla)
 	rsd := c.Rule("shadow-define", "every symbol-table definer records that the name shadows a builtin (the compiler-side source of the evaluator's shadow set)", 4)
